@@ -175,6 +175,18 @@ func (ch c19) server(cfg c19cfg) *hs.Env {
 		if query == "fail" {
 			return nil, errors.New("scripted failure")
 		}
+		mk := func() *wire.PreparedStatement {
+			return wire.NewStatement(func(ctx context.Context, w wire.DataWriter, _ []wire.Parameter) error {
+				st.execs++
+				st.ctxs = append(st.ctxs, ctx)
+				check(ctx, "statement entry (one of several statements of a Query)")
+				defer check(ctx, "statement exit (one of several statements of a Query)")
+				return w.Complete("OK")
+			})
+		}
+		if strings.HasPrefix(query, "several") {
+			return wire.PreparedStatements{mk(), mk(), mk()}, nil
+		}
 		return wire.Prepared(wire.NewStatement(func(ctx context.Context, w wire.DataWriter, _ []wire.Parameter) error {
 			st.execs++
 			st.ctxs = append(st.ctxs, ctx)
@@ -374,7 +386,10 @@ func (ch c19) runConn(c *core.Ctx, env *hs.Env, cfg c19cfg, ending string, rng *
 	for i := 0; i < n; i++ {
 		before := len(st.ctxs)
 		var in []byte
-		switch rng.Intn(6) {
+		switch rng.Intn(7) {
+		case 6:
+			in = pg.Query("several; statements; in one query") // every one of them runs under a live context
+			c.Count("multi_statement_queries", 1)
 		case 5:
 			in = pg.Query("ok /* " + strings.Repeat("pad ", core.Pick(rng, []int{10, 60, 1000, 1100})) + "*/")
 		case 0:
